@@ -87,9 +87,9 @@ def check_gated(I, data, gated, mask, pred, N):
     if mask is not None:
         P('returned-mask-is-the-mask-applied', mask is m or (isinstance(mask, NDArr) and mask.fn is m.fn))
         P('mask-is-plain-bool-array', isinstance(mask, NDArr) and mask.dtype == 'bool' and mask.ndim == 1)
-    i = z3.Int('ev_i')
+    i = I.ctx.fresh_int('ev_i')      # arbitrary event (skolem constant of the universally quantified goal)
     P('mask-length', (m.shape[0] if not isinstance(m.shape[0], int) else z3.IntVal(m.shape[0])) == N)
-    P('mask-is-the-documented-predicate', z3.ForAll([i], z3.Implies(z3.And(0 <= i, i < N), m.fn(i) == pred(i))))
+    P('mask-is-the-documented-predicate', z3.Implies(z3.And(0 <= i, i < N), m.fn(i) == pred(i)), assume_after=False)
     P('container-kind-preserved', gated.cls == data.cls)
     if data.cls == 'FCSData':
         ga = I.np.ensure_attrs(gated)
@@ -101,3 +101,311 @@ def check_gated(I, data, gated, mask, pred, N):
 
 
 CONTRACTS = [StartEnd()]
+
+
+# ---------------------------------------------------------------------------------------------
+from pyvc.values import SymSeq, Inf
+from pyvc.interp import stamp
+from . import io_specs
+
+
+def sym_int_list(I, name, n):
+    f = I.ctx.fresh_fn(name, z3.IntSort(), z3.IntSort())
+    s = stamp(SymSeq('list', n, lambda I_, i, f=f: SV(f(i), 'int')))
+    s.ufn = f
+    return s
+
+
+def sym_str_list(I, name, n):
+    f = I.ctx.fresh_fn(name, z3.IntSort(), z3.StringSort())
+    s = stamp(SymSeq('list', n, lambda I_, i, f=f: SV(f(i), 'str')))
+    s.ufn = f
+    return s
+
+
+class HighLow(Contract):
+    target = 'FlowCal.gate.high_low'
+    property_ids = ('C08',)
+    config = {'call_contracts': io_specs.summaries()}
+    max_paths = 400
+
+    def cases(self):
+        out = []
+        for cont in ('ndarray', 'FCSData'):
+            forms = ['none', 'int', 'intlist'] + (['str', 'strlist'] if cont == 'FCSData' else [])
+            for ch in forms:
+                for hl in ('dd', 'gd', 'dg', 'gg'):      # high/low given or defaulted
+                    for full in (False, True):
+                        out.append({'label': '%s-%s-%s-%s' % (cont, ch, hl, 'full' if full else 'short'),
+                                    'container': cont, 'channels': ch, 'hl': hl, 'full': full})
+        return out
+
+    def setup(self, I, case):
+        N, D = sym_dims(I, 'N', 'D')
+        c = I.ctx
+        if case['container'] == 'FCSData':
+            data = sym_fcs(I, 'data', N, D, range_never_none=False)
+            data.rng_none_used = True
+        else:
+            data = sym_array(I, 'data', [N, D], 'float')
+        aux = {'N': N, 'D': D, 'data': data}
+        form = case['channels']
+        if form == 'none':
+            ch = None
+        elif form == 'int':
+            aux['c'] = c.fresh_int('ch')
+            ch = SV(aux['c'], 'int')
+        elif form == 'str':
+            aux['s'] = c.fresh_str('chname')
+            ch = SV(aux['s'], 'str')
+        else:
+            n = c.fresh_int('n')
+            c.assume(n >= 0)
+            aux['n'] = n
+            ch = sym_int_list(I, 'chs', n) if form == 'intlist' else sym_str_list(I, 'chnames', n)
+            aux['chf'] = ch.ufn
+        aux['channels'] = ch
+        aux['high'] = c.fresh_real('high') if case['hl'][0] == 'g' else None
+        aux['low'] = c.fresh_real('low') if case['hl'][1] == 'g' else None
+        kw = {'channels': ch, 'full_output': case['full'],
+              'high': None if aux['high'] is None else SV(aux['high'], 'real'),
+              'low': None if aux['low'] is None else SV(aux['low'], 'real')}
+        return [data], kw, aux
+
+    def expected_outcomes(self, case):
+        return ['return']
+
+    def small_hints(self, case, aux):
+        ex = [aux[k] for k in ('c', 'n') if k in aux]
+        return size_hints(aux, ex)
+
+    def witness(self, model, case, aux):
+        w = data_witness(model, aux['data'], case['container'])
+        form = case['channels']
+        if form == 'none':
+            ch = None
+        elif form == 'int':
+            ch = mval(model, aux['c'])
+        elif form == 'str':
+            ch = mval(model, aux['s'])
+        else:
+            n = mval(model, aux['n'])
+            ch = [mval(model, aux['chf'](z3.IntVal(k))) for k in range(n)] if isinstance(n, int) and n <= 20 else None
+        if case['container'] == 'FCSData' and w.get('meta') and form in ('str', 'strlist'):
+            # channel names in the model are arbitrary strings: express the request by position in the witness
+            names = [mval(model, aux['data'].meta.chan(z3.IntVal(i))) for i in range(len(w['meta']['channels']))]
+            def to_safe(nm):
+                return w['meta']['channels'][names.index(nm)] if nm in names else '__unknown__' + str(nm)[:8]
+            ch = to_safe(ch) if form == 'str' else [to_safe(x) for x in ch]
+        w.update({'channels': ch, 'high': None if aux['high'] is None else mval(model, aux['high']),
+                  'low': None if aux['low'] is None else mval(model, aux['low']), 'full': case['full']})
+        return w
+
+    def check(self, I, case, aux, out):
+        P = I.ctx.prove
+        N, D, data = aux['N'], aux['D'], aux['data']
+        form = case['channels']
+        fcs = case['container'] == 'FCSData'
+        m = data.meta if fcs else None
+        # which requests are errors (taken from the property: unknown names / out-of-range positions)
+        i, k, cidx = z3.Ints('hl_i hl_k hl_c')
+        if form == 'none':
+            valid = z3.BoolVal(True)
+        elif form == 'int':
+            valid = z3.And(-D <= aux['c'], aux['c'] < D)
+        elif form == 'str':
+            valid = z3.Exists([cidx], z3.And(0 <= cidx, cidx < D, m.chan(cidx) == aux['s']))
+        elif form == 'intlist':
+            valid = z3.ForAll([k], z3.Implies(z3.And(0 <= k, k < aux['n']), z3.And(-D <= aux['chf'](k), aux['chf'](k) < D)))
+        else:
+            valid = z3.ForAll([k], z3.Implies(z3.And(0 <= k, k < aux['n']),
+                                              z3.Exists([cidx], z3.And(0 <= cidx, cidx < D, m.chan(cidx) == aux['chf'](k)))))
+        if out.kind == 'raise':
+            P('raises-only-for-invalid-channel-request', z3.Not(valid))
+            P('invalid-channel-error-class', out.raised('ValueError') or out.raised('IndexError'))
+            return
+        P('valid-request', valid)
+        v = out.value
+        if case['full']:
+            P('full-output-is-namedtuple', isinstance(v, NT) and v.cls.fields == ['gated_data', 'mask'])
+            if not isinstance(v, NT):
+                return
+            gated, mask = v.get('gated_data'), v.get('mask')
+        else:
+            gated, mask = v, None
+        x = data.fn
+
+        def within(i_, c_):
+            """event i strictly between the thresholds of column c"""
+            val = x(i_, c_)
+            if aux['high'] is not None:
+                hi_ok = val < aux['high']
+            elif fcs:
+                hi_ok = z3.Or(m.rng_none(c_), val < m.hi(c_))
+            else:
+                hi_ok = z3.BoolVal(True)
+            if aux['low'] is not None:
+                lo_ok = val > aux['low']
+            elif fcs:
+                lo_ok = z3.Or(m.rng_none(c_), val > m.lo(c_))
+            else:
+                lo_ok = z3.BoolVal(True)
+            return z3.And(hi_ok, lo_ok)
+
+        def norm(c_):
+            return z3.If(c_ < 0, c_ + D, c_)
+        if form == 'none':
+            pred = lambda i_: z3.ForAll([cidx], z3.Implies(z3.And(0 <= cidx, cidx < D), within(i_, cidx)))
+        elif form == 'int':
+            pred = lambda i_: within(i_, norm(aux['c']))
+        elif form == 'str':
+            pred = lambda i_: z3.ForAll([cidx], z3.Implies(z3.And(0 <= cidx, cidx < D, m.chan(cidx) == aux['s']), within(i_, cidx)))
+        elif form == 'intlist':
+            pred = lambda i_: z3.ForAll([k], z3.Implies(z3.And(0 <= k, k < aux['n']), within(i_, norm(aux['chf'](k)))))
+        else:
+            pred = lambda i_: z3.ForAll([k, cidx], z3.Implies(z3.And(0 <= k, k < aux['n'], 0 <= cidx, cidx < D,
+                                                                     m.chan(cidx) == aux['chf'](k)), within(i_, cidx)))
+        check_gated(I, data, gated, mask, pred, N)
+
+
+CONTRACTS.append(HighLow())
+
+
+# ---------------------------------------------------------------------------------------------
+from pyvc import interp as M
+
+
+class Ellipse(Contract):
+    target = 'FlowCal.gate.ellipse'
+    property_ids = ('C08',)
+    config = {'call_contracts': io_specs.summaries()}
+    assumptions = ('ellipse: semi-axes a > 0 and b > 0 (division by the semi-axes); A-REAL: cos/sin/log10/exp10 are '
+                   'uninterpreted with cos^2+sin^2=1, log10(exp10 x)=x',)
+
+    def cases(self):
+        out = []
+        for cont in ('ndarray', 'FCSData'):
+            forms = ['int2', 'badlen'] + (['str2'] if cont == 'FCSData' else [])
+            for ch in forms:
+                for log in (False, True):
+                    for full in (False, True):
+                        if ch == 'badlen' and (log or full):
+                            continue
+                        out.append({'label': '%s-%s-%s-%s' % (cont, ch, 'log' if log else 'lin', 'full' if full else 'short'),
+                                    'container': cont, 'channels': ch, 'log': log, 'full': full})
+        return out
+
+    def setup(self, I, case):
+        N, D = sym_dims(I, 'N', 'D')
+        c = I.ctx
+        if case['container'] == 'FCSData':
+            data = sym_fcs(I, 'data', N, D)
+        else:
+            data = sym_array(I, 'data', [N, D], 'float')
+        aux = {'N': N, 'D': D, 'data': data}
+        form = case['channels']
+        if form == 'int2':
+            aux['c0'], aux['c1'] = c.fresh_int('ch0'), c.fresh_int('ch1')
+            ch = stamp(Seq('list', [SV(aux['c0'], 'int'), SV(aux['c1'], 'int')]))
+        elif form == 'str2':
+            aux['s0'], aux['s1'] = c.fresh_str('chn0'), c.fresh_str('chn1')
+            ch = stamp(Seq('list', [SV(aux['s0'], 'str'), SV(aux['s1'], 'str')]))
+        else:
+            n = c.fresh_int('n')
+            c.assume(z3.And(n >= 0, n != 2))
+            ch = sym_int_list(I, 'chs', n)
+        for nm in ('cx', 'cy', 'a', 'b', 'theta'):
+            aux[nm] = c.fresh_real(nm)
+        c.assume(z3.And(aux['a'] > 0, aux['b'] > 0))
+        center = stamp(Seq('list', [SV(aux['cx'], 'real'), SV(aux['cy'], 'real')]))
+        kw = {'center': center, 'a': SV(aux['a'], 'real'), 'b': SV(aux['b'], 'real'), 'theta': SV(aux['theta'], 'real'),
+              'log': case['log'], 'full_output': case['full']}
+        return [data, ch], kw, aux
+
+    def expected_outcomes(self, case):
+        return ['raise:ValueError'] if case['channels'] == 'badlen' else ['return']
+
+    def small_hints(self, case, aux):
+        ex = [aux[k] for k in ('c0', 'c1') if k in aux]
+        th = aux['theta']
+        generic = z3.And(M.fsin(th) != 0, M.fcos(th) != 0, aux['a'] != aux['b'], M.fsin(th) > 0, M.fcos(th) > 0,
+                         M.fcos(th) * M.fcos(th) + M.fsin(th) * M.fsin(th) == 1)
+        return [z3.And(h, generic) for h in size_hints(aux, ex)] + size_hints(aux, ex)
+
+    def witness(self, model, case, aux):
+        w = data_witness(model, aux['data'], case['container'])
+        if case['channels'] == 'int2':
+            ch = [mval(model, aux['c0']), mval(model, aux['c1'])]
+        elif case['channels'] == 'str2' and w.get('meta'):
+            names = [mval(model, aux['data'].meta.chan(z3.IntVal(i))) for i in range(len(w['meta']['channels']))]
+            ch = [w['meta']['channels'][names.index(mval(model, aux[k]))] if mval(model, aux[k]) in names else '__unknown__'
+                  for k in ('s0', 's1')]
+        else:
+            ch = None
+        w.update({'channels': ch, 'center': [mval(model, aux['cx']), mval(model, aux['cy'])], 'a': mval(model, aux['a']),
+                  'b': mval(model, aux['b']), 'theta': mval(model, aux['theta']), 'cos': mval(model, M.fcos(aux['theta'])),
+                  'sin': mval(model, M.fsin(aux['theta'])), 'log': case['log'], 'full': case['full']})
+        return w
+
+    def check(self, I, case, aux, out):
+        P = I.ctx.prove
+        N, D, data = aux['N'], aux['D'], aux['data']
+        form = case['channels']
+        fcs = case['container'] == 'FCSData'
+        m = data.meta if fcs else None
+        if form == 'badlen':
+            P('wrong-number-of-channels-raises-ValueError', out.raised('ValueError'))
+            return
+        c0, c1 = z3.Ints('el_c0 el_c1')
+        if form == 'int2':
+            valid = z3.And(-D <= aux['c0'], aux['c0'] < D, -D <= aux['c1'], aux['c1'] < D)
+            cols = (z3.If(aux['c0'] < 0, aux['c0'] + D, aux['c0']), z3.If(aux['c1'] < 0, aux['c1'] + D, aux['c1']))
+        else:
+            valid = z3.Exists([c0, c1], z3.And(0 <= c0, c0 < D, 0 <= c1, c1 < D, m.chan(c0) == aux['s0'], m.chan(c1) == aux['s1']))
+        if out.kind == 'raise':
+            P('raises-only-for-invalid-channel-request', z3.Not(valid))
+            P('invalid-channel-error-class', out.raised('ValueError') or out.raised('IndexError'))
+            return
+        P('valid-request', valid)
+        if form == 'str2':
+            # the columns carrying the two names (unique: names are distinct)
+            k0, k1 = I.ctx.fresh_int('col0'), I.ctx.fresh_int('col1')
+            I.ctx.assume(z3.And(0 <= k0, k0 < D, 0 <= k1, k1 < D, m.chan(k0) == aux['s0'], m.chan(k1) == aux['s1']))
+            cols = (k0, k1)
+        v = out.value
+        fields = ['gated_data', 'mask', 'contour']
+        if case['full']:
+            P('full-output-is-namedtuple', isinstance(v, NT) and v.cls.fields == fields)
+            if not isinstance(v, NT):
+                return
+            gated, mask, contour = v.get('gated_data'), v.get('mask'), v.get('contour')
+        else:
+            gated, mask, contour = v, None, None
+        cx, cy, a, b, th = aux['cx'], aux['cy'], aux['a'], aux['b'], aux['theta']
+        co, si = M.fcos(th), M.fsin(th)
+        tr = (lambda e: M.log10(e)) if case['log'] else (lambda e: e)
+
+        def quad(px, py):
+            u = co * (px - cx) + si * (py - cy)
+            w = -si * (px - cx) + co * (py - cy)
+            return (u / a) * (u / a) + (w / b) * (w / b)
+        pred = lambda i_: quad(tr(data.fn(i_, cols[0])), tr(data.fn(i_, cols[1]))) <= 1
+        check_gated(I, data, gated, mask, pred, N)
+        if contour is not None:
+            ok = isinstance(contour, Seq) and len(contour.items) == 1 and isinstance(contour.items[0], NDArr) \
+                and contour.items[0].ndim == 2
+            P('contour-is-a-list-of-one-2d-array', ok)
+            if ok:
+                ci = contour.items[0]
+                P('contour-shape', z3.And(I.np.dim_z(ci.shape[0]) >= 3, I.np.dim_z(ci.shape[1]) == 2))
+                k = z3.Int('ct_k')
+                x = z3.Real('ax_t')
+                # trigonometric identity (A-REAL)
+                I.ctx.add_axiom(z3.ForAll([x], M.fcos(x) * M.fcos(x) + M.fsin(x) * M.fsin(x) == 1,
+                                          patterns=[M.fcos(x)]), 'A-REAL:cos^2+sin^2=1')
+                P('contour-points-lie-on-the-same-ellipse',
+                  z3.ForAll([k], z3.Implies(z3.And(0 <= k, k < I.np.dim_z(ci.shape[0])),
+                                            quad(tr(ci.fn(k, z3.IntVal(0))), tr(ci.fn(k, z3.IntVal(1)))) == 1)))
+
+
+CONTRACTS.append(Ellipse())
